@@ -51,16 +51,18 @@ let eval case impl =
     (* spec: what the message must decode to, from the inputs alone *)
     let start = if ep = "Q" then "PUT /t HTTP/1.1" else Printf.sprintf "HTTP/1.1 %d %s" code_i (string_of_bytes reason_b) in
     (* the header set as the independent store (Spec/HeaderStore.v) sees the same operations *)
-    let stored = List.fold_left M.store_step [] ops in
+    (* (a peer reads field values without their outer optional whitespace: Spec/PrinterSpecGen.v norm_field) *)
+    let stored_raw = List.fold_left M.store_step [] ops in
+    let stored = List.map M.norm_field stored_raw in
     let declared_cl = match M.spec_cl ops with Some n -> Some (int_of_n n) | None -> None in
-    let declared_chunked = M.eval_chunked stored in
+    let declared_chunked = M.eval_chunked stored_raw in
     let datef = if dflag = "d" then [(bytes_of_string "date", bytes_of_string "Thu, 01 Jan 1970 00:00:00 GMT")] else [] in
     let blen = List.length body in
     let ok =
       match M.decode_msg iraw with
       | None ->
         (* only acceptable when the declared length exceeds what the reader delivers (the writer must then fail) *)
-        (match declared_cl with Some d when (ep = "R" || ep = "Q") && not declared_chunked && d > blen -> true | _ -> false)
+        (match declared_cl with Some d when (ep = "R" || ep = "Q") && not declared_chunked && d > blen -> ist = "err" | _ -> false)
       | Some m ->
         let fields_ok extra = m.M.m_fields = stored @ datef @ extra in
         string_of_bytes m.M.m_start = start && m.M.m_rest = [] &&
@@ -74,5 +76,8 @@ let eval case impl =
              m.M.m_body = body &&
              (fields_ok [(bytes_of_string "content-length", bytes_of_string (string_of_int blen))]
               || fields_ok [(bytes_of_string "transfer-encoding", bytes_of_string "chunked")])) in
-    ((if model = icanon then impl else model), if ok then [] else [("C08", "-")])
+    (* recorded finding F37: a user-supplied Transfer-Encoding whose stored fields are not exactly one `chunked`
+       (Spec/PrinterSpecGen.v printable_st; bytes_printable_iff: exactly then the output is not one correctly framed message) *)
+    let tag = if M.printable_st stored_raw then "-" else "F37" in
+    ((if model = icanon then impl else model), if ok then [] else [("C08", tag)])
   | _ -> failwith "bad printer case"
